@@ -155,7 +155,7 @@ impl Check for C18 {
         "fault_enumeration"
     }
     fn rule(&self) -> &'static str {
-        "case = configuration with 1-4 modes (identifier-like distinct names), lookaheads of both polarities, classes and literals whose text needs escaping in a label (quote, backslash, newline, non-ASCII, braces), a random prefix, plus one injected fault out of {none, target folder missing, regular file in place of the folder, directory occupying an output file name, over-long prefix}; oracle = without fault: Ok, the fresh target directory contains exactly the files <prefix>_<mode>.dot, each parses with a strict parser of the DOT subset, and by content: nodes = states (number leading the label), ` T<t>` exactly on accepting non-start states with t their token type, multiset of edges (source state, trailing (C#id), target state) = multiset of transitions of the feature-gated dump, exactly one cluster per lookahead labelled with T<t> and Pos/Neg containing the lookahead automaton under the same rules; with fault: Err and no panic; non-trivial = >= 2 modes or >= 1 lookahead together with a label needing an escape"
+        "case = configuration with 1-4 modes (identifier-like distinct names), lookaheads of both polarities, classes and literals whose text needs escaping in a label (quote, backslash, newline, non-ASCII, braces), a random prefix, a target folder that is fresh or already holds larger files of an earlier export under the same names plus an unrelated file, plus one injected fault out of {none, target folder missing, regular file in place of the folder, directory occupying an output file name, over-long prefix}; oracle = without fault: Ok, the fresh target directory contains exactly the files <prefix>_<mode>.dot, each parses with a strict parser of the DOT subset, and by content: nodes = states (number leading the label), ` T<t>` exactly on accepting non-start states with t their token type, multiset of edges (source state, trailing (C#id), target state) = multiset of transitions of the feature-gated dump, exactly one cluster per lookahead labelled with T<t> and Pos/Neg containing the lookahead automaton under the same rules; with fault: Err and no panic; non-trivial = >= 2 modes or >= 1 lookahead together with a label needing an escape"
     }
     fn cases(&self, thorough: bool) -> usize {
         if thorough {
@@ -201,7 +201,7 @@ impl Check for C18 {
         let fault = *d.pick(&["none", "none", "none", "missing_folder", "file_as_folder", "dir_as_output", "long_prefix"]);
         Case {
             modes,
-            extra: json!({"prefix": prefix, "fault": fault}),
+            extra: json!({"prefix": prefix, "fault": fault, "prefill": d.chance(80)}),
             ..Case::default()
         }
     }
@@ -223,6 +223,7 @@ impl Check for C18 {
             return Ok(discard("discard_prefix"));
         }
         let fault = case.extra["fault"].as_str().unwrap_or("none").to_string();
+        let prefill = case.extra["prefill"].as_bool().unwrap_or(false);
         let mut st = CaseStats::default();
         let scanner = match build_guarded(case, false)? {
             Ok(s) => s,
@@ -242,7 +243,17 @@ impl Check for C18 {
         let setup: std::io::Result<()> = (|| {
             std::fs::create_dir_all(&dir)?;
             match fault.as_str() {
-                "none" => std::fs::create_dir_all(&target)?,
+                "none" => {
+                    std::fs::create_dir_all(&target)?;
+                    if prefill {
+                        // an earlier, larger export under the same names and an unrelated file
+                        for m in &case.modes {
+                            let stale = format!("digraph {{\n{}}}\n", "  \"9\" -> \"9\" [label=\"x (C#0)\"];\n".repeat(400));
+                            std::fs::write(target.join(format!("{}_{}.dot", prefix, m.name)), stale)?;
+                        }
+                        std::fs::write(target.join("keep.txt"), b"unrelated")?;
+                    }
+                }
                 "missing_folder" => {}
                 "file_as_folder" => std::fs::write(&target, b"x")?,
                 "dir_as_output" => {
@@ -298,6 +309,10 @@ impl Check for C18 {
                 .collect();
             found.sort();
             let mut expected: Vec<String> = case.modes.iter().map(|m| format!("{}_{}.dot", prefix, m.name)).collect();
+            if prefill {
+                expected.push("keep.txt".to_string());
+                st.count("exports_over_existing_files");
+            }
             expected.sort();
             if found != expected {
                 return Err(Failure::new("c18.files", "the target folder does not contain exactly one file per mode").exp_obs(&expected, &found));
